@@ -95,11 +95,15 @@ func jsonRoundTrip(p *cedar.Policy) (out *cedar.Policy, js string, err error, pa
 	if e != nil {
 		return nil, "", e, ""
 	}
-	var q cedar.Policy
+	// every other document is decoded into a Policy value that already holds another policy
+	q := &cedar.Policy{}
+	if len(b)%2 == 1 {
+		q = UsedPolicy()
+	}
 	if e := q.UnmarshalJSON(b); e != nil {
 		return nil, string(b), e, ""
 	}
-	return &q, string(b), nil, ""
+	return q, string(b), nil, ""
 }
 
 // c09culprit names the smallest sub-expression whose own JSON round trip changes its tree.
@@ -186,7 +190,7 @@ func C09(c *mon.Ctx) {
 		}
 		// (2) independent encoder
 		hj := render.PolicyJSON(mp)
-		var hp cedar.Policy
+		hp := *UsedPolicy()
 		if err := func() (e error) {
 			defer func() {
 				if x := recover(); x != nil {
